@@ -51,6 +51,13 @@ claimed["C18"] = dict(engine="vsim", category="fault_enumeration", design="DESIG
 claimed["C19"] = dict(engine="vsim", category="exploration", design="DESIGN.md §3 C19", technique=SIM_TECH + "; answers checked against a small reference state machine with windows for calls that overlap a state change", note=SIM_NOTE + " The harness only knows the engine state through what it observed (OnBoot, the run task blocking in stop, stop requests, Run returning): calls overlapping a transition are accepted with either neighbour's answer.",
    text="Seeded search over sequences of control calls from one or several simulated goroutines against every engine state, including calls racing with a shutdown started by any other source at any scheduler step and Stop with cancelled/expiring contexts on the bubble's fake clock; a reference state machine decides the legal answers. Found that a Register/Enroll accepted while the engine shuts down never delivers a result (known finding).")
 
+claimed["C14"] = dict(engine="vsim", category="exploration", design="DESIGN.md §3 C14", technique=SIM_TECH + "; registry additionally driven alone through seeded histories against a map model (both build variants)", note=SIM_NOTE + " The registry snapshot comes from a read-only export file injected into the scratch copy (degrades to 'unavailable' if the tree renames the fields). The stand-alone history part is plain model-based generation (no schedule or fault in it) and is labelled so in the evidence. Removing only some visited connections during an iteration is outside the statement and is not generated.",
+   text="The schedule is what makes registry histories adversarial (which numbers are registered and removed in what order, removal during the shutdown iteration, immediate re-registration of a just-closed number): the whole-engine simulation produces them and compares, inside every callback, the loop's registry with the harness's live set, for the map registry and the compacting matrix of gc_opt.")
+claimed["C15"] = dict(engine="vsim", category="exploration", design="DESIGN.md §3 C15", technique=SIM_TECH, note=SIM_NOTE + " The loop of a connection is observed as the scheduler task that runs its callbacks; the least-connections oracle uses runs whose connects are serialised and in which atomics are not scheduling points, so that the balancer's scan is atomic with the accept4 before it.",
+   text="Seeded search over accept/close sequences (hence per-loop count vectors), loop counts and remote addresses; the accept order is known from the simulated kernel, the serving loop from the scheduler, and each policy's rule is checked on the resulting sequence.")
+claimed["C17"] = dict(engine="vsim", category="exploration", design="DESIGN.md §3 C17", technique=SIM_TECH, note=SIM_NOTE + " Covers the in-system half of the statement (addresses reported for accepted connections, for their whole life, under churn). The conversion round-trip clause is a pure function of its input and is only covered to the extent these runs generate addresses; UDP sources are covered by C08 when claimed.",
+   text="The simulated kernel fabricates the peer addresses handed to accept4, including zoned link-local IPv6 with existing and non-existing interface indexes, so the address conversion runs on generated input inside the running system and is compared at every callback. Found a garbage byte in the zone string of unknown interfaces (repaired).")
+
 not_applicable = {
  "C16": "pure function of a string / a few integers (parseProtoAddr, capacity normalisation, loop-count clamp): no schedule, clock, I/O or fault for a simulator to control; generating strings would be input fuzzing in simulator vocabulary (DESIGN.md §4)",
  "C20": "pure integer arithmetic (power-of-two helpers, size-class index, GFD pack/unpack): exhaustive enumeration or proof is the right tool, not simulation (DESIGN.md §4)",
